@@ -19,6 +19,7 @@ import (
 	"reflect"
 	"sort"
 	"strings"
+	"time"
 	"unicode/utf8"
 
 	"google.golang.org/protobuf/encoding/protojson"
@@ -65,19 +66,15 @@ func runC45(c *C) {
 		}
 	}
 
-	runLeaf(c)
-	if c.Failed() {
-		return
+	var walls []string
+	timed := func(name string, f func(*C)) bool {
+		t0 := time.Now()
+		f(c)
+		walls = append(walls, fmt.Sprintf("%s=%.1fs", name, time.Since(t0).Seconds()))
+		return !c.Failed()
 	}
-	runNV(c)
-	if c.Failed() {
-		return
-	}
-	runAI(c)
-	if c.Failed() {
-		return
-	}
-	runAny(c)
+	_ = timed("template", runTemplateTie) && timed("leaf", runLeaf) && timed("nv", runNV) && timed("ai", runAI) && timed("any+url", runAny)
+	c.R.Notes = append(c.R.Notes, "wall per stream: "+strings.Join(walls, " "))
 }
 
 func replay(c *C, in Input) {
@@ -562,7 +559,7 @@ func runNV(c *C) {
 			return
 		}
 	}
-	N := c.N(6000, 120000)
+	N := c.N(16000, 200000)
 	for i := 0; i < N && !c.Failed(); i++ {
 		o := genOpts{maxDepth: 5, pBad: 25}
 		switch i % 4 {
@@ -895,7 +892,7 @@ func runAI(c *C) {
 	for _, v := range fixed {
 		evalAI(c, v)
 	}
-	N := c.N(2500, 50000)
+	N := c.N(8000, 80000)
 	for i := 0; i < N && !c.Failed(); i++ {
 		evalAI(c, genPV(c, 1))
 	}
